@@ -626,7 +626,9 @@ fn c13_foreign_moves(rep: &Reporter, p: &Pos, calls: &AtomicU64) {
                             }
                         }
                         (Ok(s), None) => rep.report(format!("to_pgn_string:foreign_move:accepts_move_that_is_not_legal_here:{}", origin), case(json!({"returned": s}))),
-                        (Err(_), Some(_)) => rep.report("to_pgn_string:foreign_move:rejects_legal_text".to_string(), case(json!({}))),
+                        // a Move value of another board whose TEXT happens to be legal here: the statement
+                        // does not say whether it has to be accepted — only that nothing may be changed
+                        (Err(_), Some(_)) => {}
                         (Err(_), None) => {}
                     }
                     let after = snap(&b);
